@@ -203,4 +203,63 @@ def versionUnmarshalX (old : Version) (text : Bytes) : Version × Bool :=
     let r := fillSlotsX old.v (splitOn 46 rest) 0
     (⟨kind, r.1⟩, r.2)
 
+/-! ### toolkit/types/cpe/marshaling.go: the wrappers around C19's Unbind / BindFS
+
+  The text codec itself (Unbind, Valid, BindFS) is C19's model; here it is a
+  parameter, and what is modelled is what marshaling.go adds: the empty text,
+  the dispatch of `Scan` over the source kinds and `strings.ToValidUTF8`. -/
+
+/-- Width of the UTF-8 encoding at the head of `s` as `utf8.DecodeRune` sees it
+    (1 for ASCII and for an invalid byte; `valid` tells which). -/
+def utf8Width (s : Bytes) : Nat × Bool :=
+  let cont (c : Nat) : Bool := 128 ≤ c && c ≤ 191
+  match s with
+  | [] => (0, true)
+  | c :: r =>
+    if c < 128 then (1, true)
+    else if 194 ≤ c && c ≤ 223 then
+      match r with
+      | a :: _ => if cont a then (2, true) else (1, false)
+      | _ => (1, false)
+    else if 224 ≤ c && c ≤ 239 then
+      match r with
+      | a :: b :: _ =>
+        let lo := if c = 224 then 160 else 128
+        let hi := if c = 237 then 159 else 191
+        if lo ≤ a && a ≤ hi && cont b then (3, true) else (1, false)
+      | _ => (1, false)
+    else if 240 ≤ c && c ≤ 244 then
+      match r with
+      | a :: b :: d :: _ =>
+        let lo := if c = 240 then 144 else 128
+        let hi := if c = 244 then 143 else 191
+        if lo ≤ a && a ≤ hi && cont b && cont d then (4, true) else (1, false)
+      | _ => (1, false)
+    else (1, false)
+
+/-- `strings.ToValidUTF8(s, "\uFFFD")`: each run of invalid bytes becomes one U+FFFD. -/
+def toValidUTF8Aux : Nat → Bool → Bytes → Bytes
+  | 0, _, _ => []
+  | _ + 1, _, [] => []
+  | n + 1, inv, c :: r =>
+    let w := utf8Width (c :: r)
+    if w.2 then (c :: r).take w.1 ++ toValidUTF8Aux n false ((c :: r).drop w.1)
+    else (if inv then [] else [239, 191, 189]) ++ toValidUTF8Aux n true r
+
+def toValidUTF8 (s : Bytes) : Bytes := toValidUTF8Aux s.length false s
+
+/-- `(*WFN).UnmarshalText`: the empty text is accepted and leaves the receiver
+    alone, anything else is `Unbind` (`none` = error; the real method then
+    also overwrites the receiver with whatever Unbind returned). -/
+def wfnUnmarshalText {W : Type} (unbind : Bytes → Option W) (old : W) (b : Bytes) : Option W :=
+  if b.isEmpty then some old else unbind b
+
+/-- `(*WFN).Scan`: `string` as is, `[]byte` through `ToValidUTF8`, every other source an error. -/
+def wfnScan {W : Type} (unbind : Bytes → Option W) (old : W) : Src → Option W
+  | .str s => wfnUnmarshalText unbind old s
+  | .bytes b => wfnUnmarshalText unbind old (toValidUTF8 b)
+  | .null => none
+  | .int _ => none
+  | .other => none
+
 end ClairModel.Codec
